@@ -911,6 +911,11 @@ impl<R: Read> RdbReader<R> {
         }
         let key = self.read_string()?;
         
+        // `ttl` is what remained when the entry's expiry was read; reading a large
+        // value takes time, so what remains when it is finally applied is less
+        let ttl_taken_at = std::time::Instant::now();
+        let remaining = |ttl: Duration| ttl.saturating_sub(ttl_taken_at.elapsed());
+        
         match value_type {
             op if op == RdbOpcode::String as u8 => {
                 let value = self.read_string()?;
@@ -934,7 +939,7 @@ impl<R: Read> RdbReader<R> {
                 }
                 
                 if let Some(ttl) = ttl {
-                    storage.expire(db, &key, ttl)?;
+                    storage.expire(db, &key, remaining(ttl))?;
                 }
             }
             op if op == RdbOpcode::List as u8 => {
@@ -990,7 +995,7 @@ impl<R: Read> RdbReader<R> {
                         }
                         
                         if let Some(ttl) = ttl {
-                            storage.expire(db, &key, ttl)?;
+                            storage.expire(db, &key, remaining(ttl))?;
                         }
                         return Ok(key);
                     } else {
@@ -1008,7 +1013,7 @@ impl<R: Read> RdbReader<R> {
                 }
                 
                 if let Some(ttl) = ttl {
-                    storage.expire(db, &key, ttl)?;
+                    storage.expire(db, &key, remaining(ttl))?;
                 }
             }
             op if op == RdbOpcode::Set as u8 => {
@@ -1024,7 +1029,7 @@ impl<R: Read> RdbReader<R> {
                 }
                 
                 if let Some(ttl) = ttl {
-                    storage.expire(db, &key, ttl)?;
+                    storage.expire(db, &key, remaining(ttl))?;
                 }
             }
             op if op == RdbOpcode::Hash as u8 => {
@@ -1042,7 +1047,7 @@ impl<R: Read> RdbReader<R> {
                 }
                 
                 if let Some(ttl) = ttl {
-                    storage.expire(db, &key, ttl)?;
+                    storage.expire(db, &key, remaining(ttl))?;
                 }
             }
             _ => {
